@@ -1796,7 +1796,7 @@ class Transaction(object):
                 n_signs += 1
 
             if not n_signs:
-                break
+                continue
 
             # Add already known signatures on correct position
             sigs_unknown_key = []
